@@ -765,17 +765,32 @@ def _oracle_grid(case, obs):
         if rd["n_cells"] != ncell or len(got) != ncell:
             fails.append({"key": f"{kind}-count", "what": f"read {ri - 1}: {len(got)} centroids, n_cells={rd['n_cells']}, expected {ncell}"})
         elif _differ(got, exp, approx):
-            if alt is not None and not _differ(got, alt, approx):
+            if inplace_pending and _x_shift_only(got, exp, approx):
+                # the recorded defect: an accepted in-place write into the origin array, no setter call since: the cache (and
+                # every read from it) keeps the centroids of the OLD origin, i.e. the expected ones shifted along x only
+                key = "origin-inplace-stale"
+            elif alt is not None and not _differ(got, alt, approx):
                 key = "bm-first-delimiter-ignored"
             elif prev_expected is not None and len(prev_expected) == len(got) and not _differ(got, prev_expected, approx):
                 # the recorded defect: the stale read follows an accepted in-place edit of the origin array
-                key = "origin-inplace-stale" if inplace_pending else f"{kind}-stale-centroid-cache"
+                key = f"{kind}-stale-centroid-cache"
             else:
                 key = f"{kind}-centroid-position"
             bad = next(i for i in range(ncell) if _differ([got[i]], [exp[i]], approx))
             fails.append({"key": key, "what": f"read {ri - 1}: centroid {bad} is {tuple(map(str, got[bad]))}, format says {tuple(map(str, exp[bad]))}"})
         prev_expected = exp
     return fails
+
+
+def _x_shift_only(got, exp, approx) -> bool:
+    """got = exp + (d, 0, 0) for one non-zero d, for every centroid."""
+    if len(got) != len(exp) or not got:
+        return False
+    tol = (lambda a, b: abs(float(a) - float(b)) <= 1e-9 * max(1.0, abs(float(b)))) if approx else (lambda a, b: a == b)
+    d = got[0][0] - exp[0][0]
+    if tol(d, 0):
+        return False
+    return all(tol(g[0] - e[0], d) and tol(g[1], e[1]) and tol(g[2], e[2]) for g, e in zip(got, exp))
 
 
 def _differ(got, exp, approx) -> bool:
